@@ -1,4 +1,4 @@
-import DoltVerif.Lemmas.ProllyDiffDescend
+import DoltVerif.Lemmas.ProllyDiffSpec
 /-!
 C13 — Diffs report exactly the changed keys.
 
@@ -65,6 +65,165 @@ theorem differ_window_refines {store} {below : Bytes → Bool} (cmp : Bytes → 
     (h : diffLoop cmp cam sfuel fuel f t fs ts = some evs) :
     evs = specDiff cmp cam (tw below (rem f)) (tw below (rem t)) :=
   diffLoop_spec hrefl cam sfuel fuel f t fs ts evs sf st h
+
+/-- **differ_reports_exactly_changed** (the property in its own words, whole key space): on two
+well-formed trees whose contents are strictly ascending under a lawful key order, the differ
+reports an event `e` iff `e` is "removed x" for a pair of `a` with no partner key in `b`, "added y"
+for a pair of `b` with no partner in `a`, or "modified x y" for partner pairs whose value bytes
+differ (or any partner pair when all rows count as modified) — and the reported keys strictly
+ascend, so no key is reported twice. -/
+theorem differ_reports_exactly_changed {store} {cmp : Bytes → Bytes → Ordering} (ol : OrdLaws cmp) (cam : Bool)
+    (a b : Tree) (ha : a.WF store) (hb : b.WF store) (sa : Sorted cmp a.flatten) (sb : Sorted cmp b.flatten)
+    (evs : List Event) (h : diffRoots cmp cam a b = some evs) :
+    (∀ e, e ∈ evs ↔ DiffSpec cmp cam a.flatten b.flatten e) ∧
+    evs.Pairwise (fun e1 e2 => cmp e1.key e2.key = .lt) := by
+  have := differ_refines cmp ol.refl cam a b ha hb evs h
+  subst this
+  exact ⟨specDiff_mem ol cam _ _ sa sb, specDiff_ascending ol cam _ _ sa sb⟩
+
+theorem sorted_filter {cmp : Bytes → Bytes → Ordering} {l : List KV} (q : KV → Bool) (h : Sorted cmp l) : Sorted cmp (l.filter q) :=
+  List.Pairwise.sublist List.filter_sublist h
+
+/-- the differ started from proper start/stop cursors positioned at the first `pS` / first `pE` pair
+of each tree reports the merge walk of the pairs with `pS ∧ ¬pE` -/
+theorem differ_cursors_refines {store} (cmp : Bytes → Bytes → Ordering) (hrefl : ∀ k, cmp k k = .eq)
+    (pS pE : Bytes → Bool) (a b : Tree) (fa fsa fb fsb : Cur)
+    (ca : CurAt store a fa) (csa : CurAt store a fsa) (cb : CurAt store b fb) (csb : CurAt store b fsb)
+    (ra : rem fa = a.flatten.dropWhile (fun kv => !pS kv.1)) (rsa : rem fsa = a.flatten.dropWhile (fun kv => !pE kv.1))
+    (rb : rem fb = b.flatten.dropWhile (fun kv => !pS kv.1)) (rsb : rem fsb = b.flatten.dropWhile (fun kv => !pE kv.1))
+    (ma1 : MonoP pS a.flatten) (ma2 : MonoP pE a.flatten) (mb1 : MonoP pS b.flatten) (mb2 : MonoP pE b.flatten)
+    (sfuel fuel : Nat) (evs : List Event) (h : diffLoop cmp false sfuel fuel fa fb fsa fsb = some evs) :
+    evs = specDiff cmp false (a.flatten.filter (fun kv => pS kv.1 && !pE kv.1))
+      (b.flatten.filter (fun kv => pS kv.1 && !pE kv.1)) := by
+  have mk : ∀ (t : Tree) (c s : Cur), CurAt store t c → CurAt store t s →
+      rem c = t.flatten.dropWhile (fun kv => !pS kv.1) → rem s = t.flatten.dropWhile (fun kv => !pE kv.1) →
+      MonoP pE t.flatten → Side store (fun k => !pE k) c s := by
+    intro t c s hc hs rc rs m2
+    obtain ⟨A, h1, h2, h3⟩ := m2.dropWhile
+    apply side_of hc hs (A := A)
+    · rw [rc]; exact List.dropWhile_suffix _
+    · rw [rs]; exact h1
+    · intro x hx; simp [h2 x hx]
+    · intro x hx; rw [rs] at hx; simp [h3 x hx]
+  have sa := mk a fa fsa ca csa ra rsa ma2
+  have sb := mk b fb fsb cb csb rb rsb mb2
+  have := diffLoop_spec hrefl false sfuel fuel _ _ _ _ evs sa sb h
+  rw [ra, rb, window_eq_filter ma1 ma2, window_eq_filter mb1 mb2] at this
+  exact this
+
+/-- **differ_range_refines** (`DifferFromCursors`, e.g. `RangeDiffMaps`): for all well-formed trees
+and all pairs of key predicates that are monotone along both trees (first false, then true — which
+is what a range bound is on a sorted map, `monoP_of_sorted`), the differ whose start/stop cursors
+are found by per-node binary search on the slot keys (with `keepInBounds`) reports exactly the
+merge walk of the pairs with `pStart ∧ ¬pStop` — wherever the range ends fall: inside a subtree
+shared by both trees, on a node boundary, before the first or after the last key, or inverted
+(then the filter is empty and so is the diff). -/
+theorem differ_range_refines {store} (cmp : Bytes → Bytes → Ordering) (hrefl : ∀ k, cmp k k = .eq)
+    (pStart pStop : Bytes → Bool) (a b : Tree) (ha : a.WF store) (hb : b.WF store) (hka : a.KeysOK) (hkb : b.KeysOK)
+    (ma1 : MonoP pStart a.flatten) (ma2 : MonoP pStop a.flatten) (mb1 : MonoP pStart b.flatten) (mb2 : MonoP pStop b.flatten)
+    (evs : List Event) (h : diffSearch cmp pStart pStop a b = some evs) :
+    evs = specDiff cmp false (a.flatten.filter (fun kv => pStart kv.1 && !pStop kv.1))
+      (b.flatten.filter (fun kv => pStart kv.1 && !pStop kv.1)) :=
+  differ_cursors_refines cmp hrefl pStart pStop a b _ _ _ _
+    (curAt_search pStart ha hka ma1) (curAt_search pStop ha hka ma2) (curAt_search pStart hb hkb mb1) (curAt_search pStop hb hkb mb2)
+    (search_spec pStart ha hka ma1).2.1 (search_spec pStop ha hka ma2).2.1 (search_spec pStart hb hkb mb1).2.1 (search_spec pStop hb hkb mb2).2.1
+    ma1 ma2 mb1 mb2 _ _ evs h
+
+/-- **rangeDiff_refines** (`prolly.RangeDiffMaps` before the callback filter): the events are the
+merge walk of the pairs inside the range, for every single-field `Range` (any bound kinds,
+inverted or not, any `BoundsAreEqual` flag) whose two predicates are monotone along the trees. -/
+theorem rangeDiff_refines {store} (cmp : Bytes → Bytes → Ordering) (hrefl : ∀ k, cmp k k = .eq) (r : Range)
+    (a b : Tree) (ha : a.WF store) (hb : b.WF store) (hka : a.KeysOK) (hkb : b.KeysOK)
+    (ma1 : MonoP (r.aboveStart cmp) a.flatten) (ma2 : MonoP (fun k => !r.belowStop cmp k) a.flatten)
+    (mb1 : MonoP (r.aboveStart cmp) b.flatten) (mb2 : MonoP (fun k => !r.belowStop cmp k) b.flatten)
+    (evs : List Event) (h : diffRange cmp r a b = some evs) :
+    evs = specDiff cmp false (a.flatten.filter (fun kv => r.aboveStart cmp kv.1 && r.belowStop cmp kv.1))
+      (b.flatten.filter (fun kv => r.aboveStart cmp kv.1 && r.belowStop cmp kv.1)) := by
+  have := differ_range_refines cmp hrefl _ _ a b ha hb hka hkb ma1 ma2 mb1 mb2 evs h
+  simpa using this
+
+theorem dropWhile_const_false (l : List KV) : l.dropWhile (fun _ => false) = l := by
+  cases l <;> simp
+
+theorem dropWhile_const_true (l : List KV) : l.dropWhile (fun _ => true) = [] := by
+  induction l with
+  | nil => rfl
+  | cons a l ih => simp [ih]
+
+/-- the start / stop predicates of `DiffKeyRangeOrderedTrees` -/
+def keyPred (cmp : Bytes → Bytes → Ordering) (dflt : Bool) : Option Bytes → Bytes → Bool
+  | none, _ => dflt
+  | some k, s => cmp k s != .gt
+
+def krStart (cmp : Bytes → Bytes → Ordering) (start : Option Bytes) (t : Tree) : Cur :=
+  match start with
+  | none => cursorAtStart t
+  | some k => cursorFromSearch (fun s => cmp k s != .gt) t
+
+def krStop (cmp : Bytes → Bytes → Ordering) (stop : Option Bytes) (t : Tree) : Cur :=
+  match stop with
+  | none => cursorPastEnd t
+  | some k => cursorFromSearch (fun s => cmp k s != .gt) t
+
+theorem diffKeyRange_eq (cmp : Bytes → Bytes → Ordering) (start stop : Option Bytes) (a b : Tree) :
+    diffKeyRange cmp start stop a b =
+      diffLoop cmp false (skipFuel a b) (loopFuel a b) (krStart cmp start a) (krStart cmp start b)
+        (krStop cmp stop a) (krStop cmp stop b) := by
+  cases start <;> cases stop <;> rfl
+
+theorem krStart_spec {store} (cmp : Bytes → Bytes → Ordering) (start : Option Bytes) {t : Tree} (hw : t.WF store)
+    (hk : t.KeysOK) (hm : MonoP (keyPred cmp true start) t.flatten) :
+    CurAt store t (krStart cmp start t) ∧
+    rem (krStart cmp start t) = t.flatten.dropWhile (fun kv => !keyPred cmp true start kv.1) := by
+  cases start with
+  | none => exact ⟨curAt_start hw, by simp [krStart, keyPred, (atStart_rem t hw).1, dropWhile_const_false]⟩
+  | some k => exact ⟨curAt_search _ hw hk hm, (search_spec _ hw hk hm).2.1⟩
+
+theorem krStop_spec {store} (cmp : Bytes → Bytes → Ordering) (stop : Option Bytes) {t : Tree} (hw : t.WF store)
+    (hk : t.KeysOK) (hm : MonoP (keyPred cmp false stop) t.flatten) :
+    CurAt store t (krStop cmp stop t) ∧
+    rem (krStop cmp stop t) = t.flatten.dropWhile (fun kv => !keyPred cmp false stop kv.1) := by
+  cases stop with
+  | none => exact ⟨curAt_pastEnd hw, by simp [krStop, keyPred, (pastEnd_spec hw).2.1, dropWhile_const_true]⟩
+  | some k => exact ⟨curAt_search _ hw hk hm, (search_spec _ hw hk hm).2.1⟩
+
+/-- **keyRangeDiff_refines** (`prolly.DiffMapsKeyRange`): events = merge walk of the pairs with
+`start ≤ key < stop` (nil start = from the first key, nil stop = to the end). -/
+theorem keyRangeDiff_refines {store} (cmp : Bytes → Bytes → Ordering) (hrefl : ∀ k, cmp k k = .eq)
+    (start stop : Option Bytes) (a b : Tree) (ha : a.WF store) (hb : b.WF store) (hka : a.KeysOK) (hkb : b.KeysOK)
+    (ma1 : MonoP (keyPred cmp true start) a.flatten) (ma2 : MonoP (keyPred cmp false stop) a.flatten)
+    (mb1 : MonoP (keyPred cmp true start) b.flatten) (mb2 : MonoP (keyPred cmp false stop) b.flatten)
+    (evs : List Event) (h : diffKeyRange cmp start stop a b = some evs) :
+    evs = specDiff cmp false (a.flatten.filter (fun kv => keyPred cmp true start kv.1 && !keyPred cmp false stop kv.1))
+      (b.flatten.filter (fun kv => keyPred cmp true start kv.1 && !keyPred cmp false stop kv.1)) := by
+  rw [diffKeyRange_eq] at h
+  obtain ⟨c1, r1⟩ := krStart_spec cmp start ha hka ma1
+  obtain ⟨c2, r2⟩ := krStart_spec cmp start hb hkb mb1
+  obtain ⟨c3, r3⟩ := krStop_spec cmp stop ha hka ma2
+  obtain ⟨c4, r4⟩ := krStop_spec cmp stop hb hkb mb2
+  exact differ_cursors_refines cmp hrefl _ _ a b _ _ _ _ c1 c3 c2 c4 r1 r3 r2 r4 ma1 ma2 mb1 mb2 _ _ evs h
+
+/-- range bounds are monotone on sorted maps: any upward-closed key predicate is first false, then
+true along a strictly ascending list (this discharges the `MonoP` hypotheses above) -/
+theorem monotone_on_sorted {cmp : Bytes → Bytes → Ordering} {p : Bytes → Bool}
+    (hup : ∀ x y, p x = true → cmp x y = .lt → p y = true) {l : List KV} (hs : Sorted cmp l) : MonoP p l :=
+  monoP_of_sorted hup hs
+
+/-- the same for key ranges: the events are exactly the differing keys inside the range -/
+theorem range_differ_reports_exactly_changed {store} {cmp : Bytes → Bytes → Ordering} (ol : OrdLaws cmp)
+    (pStart pStop : Bytes → Bool) (a b : Tree) (ha : a.WF store) (hb : b.WF store) (hka : a.KeysOK) (hkb : b.KeysOK)
+    (sa : Sorted cmp a.flatten) (sb : Sorted cmp b.flatten)
+    (hup1 : ∀ x y, pStart x = true → cmp x y = .lt → pStart y = true)
+    (hup2 : ∀ x y, pStop x = true → cmp x y = .lt → pStop y = true)
+    (evs : List Event) (h : diffSearch cmp pStart pStop a b = some evs) :
+    (∀ e, e ∈ evs ↔ DiffSpec cmp false (a.flatten.filter (fun kv => pStart kv.1 && !pStop kv.1))
+        (b.flatten.filter (fun kv => pStart kv.1 && !pStop kv.1)) e) ∧
+    evs.Pairwise (fun e1 e2 => cmp e1.key e2.key = .lt) := by
+  have := differ_range_refines cmp ol.refl pStart pStop a b ha hb hka hkb
+    (monoP_of_sorted hup1 sa) (monoP_of_sorted hup2 sa) (monoP_of_sorted hup1 sb) (monoP_of_sorted hup2 sb) evs h
+  subst this
+  exact ⟨specDiff_mem ol false _ _ (sorted_filter _ sa) (sorted_filter _ sb),
+    specDiff_ascending ol false _ _ (sorted_filter _ sa) (sorted_filter _ sb)⟩
 
 /-- **skip_sound**: `skipCommon` / `skipCommonParents` (equal `(key, addr)` parent items ⇒ both
 cursors jump past that subtree, recursively upwards) move both cursors past one and the same list
